@@ -258,10 +258,13 @@ var pathPool = [][]string{{"a"}, {"foo"}, {"foo", "bar"}, {"a", "0"}, {"a", "b",
 	{"s", "1", "x"}, {"notes"}, {"anything", "allow"}, {"inside"}, {"order", "island"}, {"ashes"}, {"matchesx"}, {"containsx", "emptyx"}, {"note", "android"}, {"not"}, {"all"}, {"in", "x"}, {"é"}, {"a", "q\"t"}, {"a", "b`t"}, {"a", ""}, {"0"}, {"a", "~tilde"}, {"a", "sl/ash"}, {"X", "Y_z"}, {"any", "b"},
 	// parts that a path-cleaning or URL-minded join would fold: dot segments, empty and slash-only parts, escapes
 	{"a", "..", "b"}, {"a", ".", "b"}, {"ports", ".."}, {"a/", "b"}, {".."}, {"."}, {"a", "...", "-"}, {"a~b", "~"}, {"/"}, {"a", "/", "b"}, {"a", "", "b"}, {"a", "b", ""},
-	{"a", "~1"}, {"a", "~0"}, {"a", "%2F"}, {"a", "b c"}, {"A", "a"}, {"a", "010"}, {"a", "007", "x"}, {"a", "-1"}, {"a", "+1"}, {"a", "1_0"}, {"a", "0x1"}}
+	{"a", "~1"}, {"a", "~0"}, {"a", "%2F"}, {"a", "b c"}, {"A", "a"}, {"a", "010"}, {"a", "007", "x"}, {"a", "-1"}, {"a", "+1"}, {"a", "1_0"}, {"a", "0x1"},
+	// odd indexes into a list of the evaluation data of the shape oracle ("s" is a list there)
+	{"s", "-1"}, {"s", "-0"}, {"s", "+1"}, {"s", "0x1"}, {"s", "01"}, {"s", "1_0"}, {"s", "99999999999999999999"}, {"s", "-0x1"}, {"s", ""}, {"s", "1", "x"}, {"s", "-1", "x"}}
 var rawPool = []string{"1", "0", "-1", "1.5", "foo", "a b", "", "true", "/usr/bin", "/a", "a/b", "x.y", "q\"t", "b`t", "b\\s", "é日本", "new\nline", "tab\t", "\x00", "\xff\xfe",
 	"007", "1e3", "0x10", "(", "[z-a]", "a**", "a{2,1}", "not", "in", "`\r`", "a.0", "-", "~", "12.50", "-0", "a\"`b", "/", "//", "/a b", "/é/1", "contains",
 	// bare words that begin with a keyword (in value-first position they stand where an operand may start)
+	"/@scope/pkg", "/$defs/x", "/tmp/my file", "/x/y?z", "a\\", "\\", "C:\\dir\\", "\x01\x02", "\a\v",
 	"notable", "nothing", "android", "inside", "orx", "anyone", "allx", "isx", "matchesx", "island", "note.book", "notify", "containsx", "inx", "asx"}
 
 func (g *Gen) randTree(depth int) GExpr {
@@ -442,6 +445,8 @@ func fragBudget(g *Gen, n int, o *Out) {
 	var inputs []string
 	inputs = append(inputs, "a == 1", "foo == 3x", "(foo == 1", "foo[1] == 2", "foo[\"a\" == 2", "1 in 5", "foo == \"abc", "foo[\xff", "", "(", "((((a == 1))))", "a ==", "all a as x { x == 1 }", "\xff", "not not not a == 1",
 		"a == 1 and b == 2 or c == 3", "((a == 1) and (b == 2))", "(((((", "a[\"b\"].c is not empty",
+		// unclosed parentheses before an unterminated string or quote (the error productions scan ahead here)
+		"(a == \"x", "(a == 1 and b == `x", "(a == 1) and (b == \"x", "(\"", "(`", "((a == \"x\"", "(a == \"x\" ", "(a in \"", "( \"a\" in b and (c == `d",
 		// a syntax error found early in a LONG input (the step count is smaller than the length in bytes)
 		"foo == 1 "+strings.Repeat("garbage ", 100), "a == 1 )"+strings.Repeat(" x", 400), "foo = 1"+strings.Repeat(" and bar == 2", 60), "x"+strings.Repeat("é", 700),
 		// white space that is not the grammar's, and blanks around an error, at the edges of the text
